@@ -34,6 +34,8 @@ EXPRS = {
                                                              ["lit", 0, 0, "t2"], ["not", 4, 0, ""], ["and", 3, 5, ""]], "root": 6},
     "v1t": {"text": "~@t1", "nodes": [["lit", 0, 0, "t1"], ["not", 1, 0, ""]], "root": 2},
     "v1b": {"text": "android,t1", "nodes": [["lit", 0, 0, "android"], ["lit", 0, 0, "t1"], ["or", 1, 2, ""]], "root": 3},
+    # old-style list with blanks around the comma inside ONE argument: still an OR of its members
+    "v1sp": {"text": "@t1, -@t2", "nodes": [["lit", 0, 0, "t1"], ["lit", 0, 0, "t2"], ["not", 2, 0, ""], ["or", 1, 3, ""]], "root": 4},
     "v1": {"text": "-t1,t2", "nodes": [["lit", 0, 0, "t1"], ["not", 1, 0, ""], ["lit", 0, 0, "t2"], ["or", 2, 3, ""]], "root": 4},
     "wip": {"text": "wip", "nodes": [["lit", 0, 0, "wip"]], "root": 1},
     "not_wip": {"text": "not @wip", "nodes": [["lit", 0, 0, "wip"], ["not", 1, 0, ""]], "root": 2},
